@@ -118,6 +118,19 @@ theorem accessors_no_index :
     Gen.tok_TokenV3_Serialize_indexes = [] ∧ Gen.tok_TokenV4_Serialize_indexes = [] ∧
     Gen.tok_TokenV4_Proofs_conds = ["proofV4.DLEQ!=nil"] := by decide
 
+/-! ## cmd/nutw: the command-line argument goes straight into DecodeToken (anchor nutw.go:194, :969) -/
+
+/-- `nutw receive <arg>`: `serializedToken := args.First()`, `cashu.DecodeToken(serializedToken)`, then `token.Mint()`
+    on the result — i.e. `decodeToken` applied to an arbitrary user-supplied string, followed by `Token.mint`. -/
+theorem nutw_receive : Gen.tok_nutw_receive_decodeArgs = [["serializedToken"]] ∧
+    Gen.tok_nutw_receive_assigns = ["serializedToken:=args.First()"] ∧
+    Gen.tok_nutw_receive_tokenUses = ["token.Mint", "nutw.ReceiveHTLC(token)", "nutw.Receive(token)"] := by decide
+
+/-- `nutw decode <arg>`: the same, followed by `json.MarshalIndent(token)` (the custom `MarshalJSON` methods). -/
+theorem nutw_decode : Gen.tok_nutw_decode_decodeArgs = [["serializedToken"]] ∧
+    Gen.tok_nutw_decode_assigns = ["serializedToken:=args.First()"] ∧
+    Gen.tok_nutw_decode_tokenUses = ["json.MarshalIndent(token)"] := by decide
+
 /-! ## NewTokenV3 / NewTokenV4: order of the checks and the error texts -/
 
 theorem newV3_conds : Gen.tok_NewTokenV3_conds = ["!includeDLEQ", "unit!=Sat"] := rfl
